@@ -9,6 +9,14 @@ Families
                shapes (N, T) / (N, 1); float64 and float32 instruments.
   grid_use     payoff, every applicable feature (get(None) and get(i) for every i), Hedger.compute_hedge /
                compute_pl shapes use the same T as the buffers.
+  cross_dt     a derivative with two underliers on DIFFERENT step sizes (ordered pairs of dt symbols, several
+               primary classes as second underlier) x maturities: every buffer of every underlier has
+               ceil(M/dt_i)+1 points for ITS OWN dt.
+  resimulate   histories: every feature (and a FeatureList) is bound ONCE with .of(derivative); the same
+               derivative is then simulated over every sequence of (maturity, n_paths) symbols; after each
+               simulation the buffers, derivative.time_to_maturity, every bound-once feature (get(None), get(i)
+               for every i) and the FeatureList must be those of the CURRENT grid (oracle for the time
+               features, a freshly bound feature for the others).
 """
 from __future__ import annotations
 
@@ -233,8 +241,8 @@ def ttm(ctx, block):
                               block=mini)
                 break
             vals = t_i.flatten().tolist()
-            # one product of an exact integer with dt (float32: dt rounded first): rel. error <= eps
-            ok = all(abs(Fraction(v) - e) <= 1.5 * eps * e for v in vals) and (e != 0 or all(v == 0.0 for v in vals))
+            # same absolute tolerance as for the full grid (an implementation may slice the full grid)
+            ok = all(abs(Fraction(v) - e) <= tol for v in vals) and (e != 0 or all(v == 0.0 for v in vals))
             if not ok:
                 cls = "step_value_negative_index" if i < 0 else "step_value"
                 ctx.violation(site, cls, f"time_to_maturity({i}) = {vals} for T={T}, dt={dt!r} ({block['dtype']}); "
@@ -310,6 +318,236 @@ def grid_use(ctx, block):
 
 
 # ----------------------------------------------------------------------------
+# two underliers on different step sizes
+# ----------------------------------------------------------------------------
+
+def cross_pairs(dts, Kc):
+    """(M, dt1, dt2, form, k) for every ordered pair of distinct dt symbols; M a whole (or half) number of
+    steps of the first or of the second underlier.  Pairs whose quotient M/dt_i falls in the zone the
+    property leaves undefined (between 4 ulp and 1e-6 of an integer) are not produced."""
+    out, skipped = [], 0
+    for a in dts:
+        for b in dts:
+            if a[1] == b[1]:
+                continue
+            seen = set()
+            for k in range(1, Kc + 1):
+                for form, M in (("k*dt1", k * a[1]), ("k*dt2", k * b[1]), ("(k-1/2)*dt1", (k - 0.5) * a[1])):
+                    if M in seen:
+                        continue
+                    seen.add(M)
+                    if R.expected_points(M, a[1])[0] is None or R.expected_points(M, b[1])[0] is None:
+                        skipped += 1
+                        continue
+                    out.append([M, a[1], b[1], form, k])
+    return out, skipped
+
+
+@family
+def cross_dt(ctx, block):
+    dtype = DT[block.get("dtype", "float64")]
+    k1, k2, n_paths = block["first"], block["second"], block["n_paths"]
+    cls = _two_underlier_class()
+    torch.manual_seed(0)
+    for (M, dt1, dt2, form, k) in block["cases"]:
+        exp = [R.expected_points(M, dt1)[0], R.expected_points(M, dt2)[0]]
+        mini = dict(block, cases=[[M, dt1, dt2, form, k]])
+        if max(exp) > block.get("max_points", 10 ** 9):
+            continue
+        first = market.primary(k1, dtype=dtype, dt=dt1)
+        second = market.primary(k2, dtype=dtype, dt=dt2)
+        d = cls(first, second, M)
+        ctx.tick(1, nontrivial=1 if exp[0] != exp[1] else 0)
+        try:
+            d.simulate(n_paths=n_paths)
+        except Exception as e:
+            ctx.violation("BaseDerivative.simulate", f"raises:{type(e).__name__}",
+                          f"two underliers dt=({dt1!r}, {dt2!r}), maturity {M!r}: {type(e).__name__}: {str(e)[:200]}",
+                          observed=repr(e)[:300], expected=exp, block=mini)
+            continue
+        for idx, (u, kind, dt) in enumerate(((first, k1, dt1), (second, k2, dt2))):
+            shapes = {name: tuple(b.shape) for name, b in u.named_buffers()}
+            bad = {n: list(sh) for n, sh in shapes.items() if sh != (n_paths, exp[idx])}
+            missing = set(market.BUFFERS[kind]) - set(shapes)
+            ctx.outcome((k1, k2, idx, exp[idx] - (list(shapes.values())[0][1] if shapes else -1)))
+            if bad or missing:
+                obs_T = sorted({sh[1] for sh in shapes.values() if len(sh) == 2})
+                if len(obs_T) == 1 and not missing:
+                    c = R.classify_steps(M, dt, obs_T[0])
+                else:
+                    c = "buffers_disagree"
+                which = "first" if idx == 0 else "second"
+                ctx.violation("BaseDerivative.simulate", f"{which}_underlier_other_dt_{c}",
+                              f"derivative on ({type(first).__name__}(dt={dt1!r}), {type(second).__name__}(dt={dt2!r})), "
+                              f"maturity {M!r} [{form}, k={k}]: {which} underlier's buffers {shapes}, expected "
+                              f"{exp[idx]} time points for its own dt={dt!r} (M/dt = {float(R.quotient(M, dt))!r})",
+                              observed=bad or sorted(missing), expected=[n_paths, exp[idx]], block=mini)
+    if len(ctx.samples) < 6 and block["cases"]:
+        M, dt1, dt2, form, k = block["cases"][len(block["cases"]) // 2]
+        ctx.sample({"family": "cross_dt", "first": k1, "second": k2, "M": M, "dt1": dt1, "dt2": dt2,
+                    "expected_points": [R.expected_points(M, dt1)[0], R.expected_points(M, dt2)[0]]})
+
+
+# ----------------------------------------------------------------------------
+# histories: features bound once, derivative simulated again and again
+# ----------------------------------------------------------------------------
+
+TIME_FEATURES = ("time_to_maturity", "expiry_time")
+
+
+def _same(a, b):
+    return a.shape == b.shape and torch.equal(a.nan_to_num(nan=-7.0), b.nan_to_num(nan=-7.0))
+
+
+@family
+def resimulate(ctx, block):
+    from pfhedge.features import FeatureList, get_feature
+    kind, route, dt = block["primary"], block["route"], block["dt"]
+    dtype = DT[block["dtype"]]
+    eps = torch.finfo(dtype).eps
+    names = [n for n in _features_for(kind, route) if n != "prev_hedge"]
+    is_option = route in market.OPTION_KINDS
+    torch.manual_seed(0)
+    for hist in block["histories"]:
+        p = market.primary(kind, dtype=dtype, dt=dt)
+        d = market.derivative(route, p, **_deriv_kwargs(route, hist[0][0] * dt, dt))
+        bound = {n: get_feature(n).of(d) for n in names}            # bound ONCE, before any simulation
+        flist = FeatureList(["log_moneyness", "time_to_maturity"]).of(d) if is_option else None
+        ctx.add("traces_validated_against_impl", 1)
+        for r, (mult, n_paths) in enumerate(hist):
+            M = mult * dt
+            d.maturity = M
+            T = R.expected_points(M, dt)[0]
+            when = "first_simulation" if r == 0 else "after_resimulation"
+            mini = dict(block, histories=[hist[:r + 1]])
+            ctx.add("transitions", 1)
+            d.simulate(n_paths=n_paths)
+            shapes = {n: tuple(b.shape) for n, b in p.named_buffers()}
+            ctx.tick(1, nontrivial=1 if r > 0 else 0)
+            if any(sh != (n_paths, T) for sh in shapes.values()):
+                ctx.violation(type(d).__name__ + ".simulate", f"{when}_buffer_shape",
+                              f"round {r}: maturity {M!r}, n_paths {n_paths}, dt {dt!r}: buffers {shapes}, expected "
+                              f"({n_paths}, {T})", observed={k_: list(v) for k_, v in shapes.items()},
+                              expected=[n_paths, T], block=mini)
+                break
+            oracle = [R.time_to_maturity(T, i, dt) for i in range(T)]
+            tol = 3 * eps * (T - 1) * dt
+
+            def check_time(site, label, get):
+                """get(None) -> (n_paths, T) values, get(i) -> (n_paths,) values; both against the oracle."""
+                try:
+                    g = get(None)
+                except Exception as e:
+                    return ctx.violation(site, f"{when}_raises:{type(e).__name__}",
+                                         f"round {r} (M={M!r}, N={n_paths}, T={T}): {label}(None) raised {type(e).__name__}: "
+                                         f"{str(e)[:160]}", observed=repr(e)[:200], expected=[n_paths, T], block=mini)
+                ctx.tick(1, nontrivial=1 if r > 0 else 0)
+                if tuple(g.shape) != (n_paths, T):
+                    return ctx.violation(site, f"{when}_shape_all",
+                                         f"round {r} (M={M!r}, N={n_paths}, dt={dt!r}): {label}(None) has grid "
+                                         f"{tuple(g.shape)}, the underlier grid is ({n_paths}, {T})",
+                                         observed=list(g.shape), expected=[n_paths, T], block=mini)
+                rows = g.tolist()
+                for row in rows:
+                    if any(abs(Fraction(row[i]) - oracle[i]) > tol for i in range(T)) or row[-1] != 0.0:
+                        return ctx.violation(site, f"{when}_value_all",
+                                             f"round {r} (M={M!r}, N={n_paths}, dt={dt!r}): {label}(None) = {row}, expected "
+                                             f"(T-1-i)*dt = {[float(o) for o in oracle]}", observed=row,
+                                             expected=[float(o) for o in oracle], block=mini)
+                for i in range(-T, T):
+                    e = R.time_to_maturity(T, i, dt)
+                    try:
+                        gi = get(i)
+                    except Exception as ex:
+                        return ctx.violation(site, f"{when}_raises:{type(ex).__name__}",
+                                             f"round {r} (M={M!r}, N={n_paths}, T={T}): {label}({i}) raised "
+                                             f"{type(ex).__name__}: {str(ex)[:160]}", observed=repr(ex)[:200],
+                                             expected=float(e), block=mini)
+                    ctx.tick(1)
+                    if tuple(gi.shape) != (n_paths,):
+                        return ctx.violation(site, f"{when}_shape_step",
+                                             f"round {r} (M={M!r}, N={n_paths}): {label}({i}) has {tuple(gi.shape)[0]} paths",
+                                             observed=list(gi.shape), expected=[n_paths], block=mini)
+                    vals = gi.tolist()
+                    if not (all(abs(Fraction(x) - e) <= tol for x in vals) and (e != 0 or all(x == 0.0 for x in vals))):
+                        return ctx.violation(site, f"{when}_value_step",
+                                             f"round {r} (M={M!r}, N={n_paths}, dt={dt!r}, T={T}): {label}({i}) = {vals[0]!r}, "
+                                             f"expected (T-1-(i mod T))*dt = {float(e)!r}", observed=vals, expected=float(e),
+                                             block=mini)
+
+            if is_option:
+                check_time(type(d).__name__ + ".time_to_maturity", "time_to_maturity",
+                           lambda i: d.time_to_maturity() if i is None else d.time_to_maturity(i)[:, 0])
+            for n in names:
+                f = bound[n]
+                if n in TIME_FEATURES:
+                    def get(i, f=f):
+                        g = f.get(i)
+                        if g.dim() != 3 or g.size(-1) != 1 or (i is not None and g.size(1) != 1):
+                            raise AssertionError(f"shape {tuple(g.shape)}")
+                        return g[:, :, 0] if i is None else g[:, 0, 0]
+                    try:
+                        check_time(f"features.{n}", f"{n}.get", get)
+                    except AssertionError as e:
+                        ctx.violation(f"features.{n}", f"{when}_shape_rank", f"round {r}: {n}.get: {e}",
+                                      observed=str(e), expected="(N, T or 1, 1)", block=mini)
+                    continue
+                fresh = get_feature(n).of(d)
+                try:
+                    g, h = f.get(None), fresh.get(None)
+                    ctx.tick(1, nontrivial=1 if r > 0 else 0)
+                    ok = tuple(g.shape) == (n_paths, T, 1) and (n == "empty" or _same(g, h))
+                    if ok:
+                        for i in range(T):
+                            gi = f.get(i)
+                            ctx.tick(1)
+                            if tuple(gi.shape) != (n_paths, 1, 1) or not (n == "empty" or _same(gi, fresh.get(i))):
+                                ok = False
+                                break
+                except Exception as e:
+                    ctx.violation(f"features.{n}", f"{when}_raises:{type(e).__name__}",
+                                  f"round {r} (M={M!r}, N={n_paths}): {n} bound once: {type(e).__name__}: {str(e)[:160]}",
+                                  observed=repr(e)[:200], expected="value of the current grid", block=mini)
+                    continue
+                if not ok:
+                    ctx.violation(f"features.{n}", f"{when}_differs_from_fresh",
+                                  f"round {r} (M={M!r}, N={n_paths}, T={T}): feature {n} bound once before the simulations "
+                                  f"returns shape {tuple(g.shape)}; a freshly bound one {tuple(h.shape)} / other values",
+                                  observed=list(g.shape), expected=[n_paths, T, 1], block=mini)
+            if flist is not None:
+                try:
+                    g = flist.get(None)
+                    ctx.tick(1, nontrivial=1 if r > 0 else 0)
+                    bad = tuple(g.shape) != (n_paths, T, 2)
+                    if not bad:
+                        col = g[0, :, 1].tolist()
+                        bad = any(abs(Fraction(col[i]) - oracle[i]) > tol for i in range(T)) or col[-1] != 0.0
+                        bad = bad or not _same(g[:, :, 0], d.log_moneyness())
+                    for i in (range(T) if not bad else ()):
+                        gi = flist.get(i)
+                        ctx.tick(1)
+                        if tuple(gi.shape) != (n_paths, 1, 2) or abs(Fraction(float(gi[0, 0, 1])) - oracle[i]) > tol \
+                                or not _same(gi[:, 0, 0], d.log_moneyness(i)[:, 0]):
+                            bad = True
+                            break
+                    if bad:
+                        ctx.violation("features.FeatureList", f"{when}_inconsistent_grid",
+                                      f"round {r} (M={M!r}, N={n_paths}, T={T}): FeatureList([log_moneyness, time_to_maturity]) "
+                                      f"bound once gives shape {tuple(g.shape)} / a time column that is not (T-1-i)*dt",
+                                      observed=list(g.shape), expected=[n_paths, T, 2], block=mini)
+                except Exception as e:
+                    ctx.violation("features.FeatureList", f"{when}_raises:{type(e).__name__}",
+                                  f"round {r} (M={M!r}, N={n_paths}, T={T}): FeatureList([log_moneyness, time_to_maturity]) bound "
+                                  f"once: {type(e).__name__}: {str(e)[:160]}", observed=repr(e)[:200],
+                                  expected=[n_paths, T, 2], block=mini)
+            ctx.outcome((route, kind, r, T, n_paths))
+        ctx.add("states", len(hist))
+    if len(ctx.samples) < 6 and block["histories"]:
+        ctx.sample({"family": "resimulate", "primary": kind, "route": route, "dt": dt,
+                    "history[(M/dt, n_paths)]": block["histories"][len(block["histories"]) // 2]})
+
+
+# ----------------------------------------------------------------------------
 
 def _chunks(cases, n):
     return [cases[i:i + n] for i in range(0, len(cases), n)]
@@ -325,7 +563,13 @@ def run(ctx):
              "exact quotient is an integer up to 4 ulp but whose float quotient M/dt is not that integer.  "
              "ttm: time_to_maturity() on every grid and time_to_maturity(i) for every i in [-T, T) (quick: T <= 25 for "
              "EuropeanOption, T <= 13 and k <= Ksmall for the other option classes; thorough: all), float64 and float32.  "
-             "grid_use: payoff / every applicable feature get(None), get(i) / hedger shapes on the k <= Ksmall grids")
+             "grid_use: payoff / every applicable feature get(None), get(i) / hedger shapes on the k <= Ksmall grids.  "
+             "cross_dt: every ordered pair of distinct dt symbols x M in {k*dt1, k*dt2, (k-1/2)*dt1 : k <= Kc} x second "
+             "underlier class in {Brownian, Heston, Merton}; non-trivial = the two underliers need different numbers of "
+             "points.  resimulate: every sequence of length 3 (thorough 4) over the (M/dt, n_paths) symbols (all |S|^depth "
+             "for EuropeanOption/BrownianStock, all permutations for the other derivative classes) x dt x dtype, features "
+             "bound once; states = simulations, transitions = re-simulations, traces = histories; non-trivial = rounds "
+             "after the first")
     ctx.assume("expected number of points computed with exact Fractions on the float arguments; 'integer' = within "
                "4*2^-52*k of k; no enumerated pair lies between that and 1e-6 of an integer (asserted)")
     ctx.assume("the number of steps does not depend on the random draws (seed fixed, values unused)")
@@ -394,8 +638,40 @@ def run(ctx):
             for ch in _chunks(cases, 200):
                 blocks.append(("grid_use", {"primary": kind, "route": route, "n_paths": 2, "cases": ch}))
 
+    # two underliers on different step sizes (both orders of every pair of dt symbols)
+    Kc = ctx.pick(6, 24)
+    cpairs, skipped = cross_pairs(dts, Kc)
+    ctx.add("cross_dt_pairs", len(cpairs))
+    ctx.add("cross_dt_pairs_in_undefined_zone_skipped", skipped)
+    for second in ("brownian", "heston", "merton"):
+        cap = 10 ** 9 if second != "heston" else ctx.pick(40, 120)   # Heston loops over the steps
+        for ch in _chunks(cpairs, 400):
+            blocks.append(("cross_dt", {"first": "brownian", "second": second, "n_paths": 2, "max_points": cap, "cases": ch}))
+    for ch in _chunks([c for c in cpairs if c[4] <= 3], 400):
+        blocks.append(("cross_dt", {"first": "heston", "second": "brownian", "n_paths": 1, "max_points": 40, "cases": ch}))
+    # histories: features bound once, the derivative simulated over every sequence of (M/dt, n_paths) symbols
+    symbols = [[5, 2], [3.5, 2], [8, 2], [5, 3]]
+    ctx.alphabet("resimulate (M/dt, n_paths)", symbols)
+    depth = ctx.pick(3, 4)
+    hists = [list(h) for h in itertools.product(symbols, repeat=depth)]
+    perms = [list(h) for h in itertools.permutations(symbols, 3)]
+    hdts = [1 / 250, 0.1, 1 / 365] if ctx.quick else [d[1] for d in dts]
+    for route in DERIVS:
+        for kind in (["brownian"] if ctx.quick else ["brownian", "heston", "merton", "local_vol"]):
+            for dt in hdts:
+                for dtype in (("float64",) if (ctx.quick and route != "european") else ("float64", "float32")):
+                    hs = hists if (route == "european" and kind == "brownian") or ctx.thorough else perms
+                    if kind != "brownian":
+                        hs = perms
+                    for ch in _chunks(hs, 64):
+                        blocks.append(("resimulate", {"primary": kind, "route": route, "dt": dt, "dtype": dtype,
+                                                      "histories": ch}))
+    if ctx.quick:
+        blocks.append(("resimulate", {"primary": "heston", "route": "european", "dt": 1 / 365, "dtype": "float64",
+                                      "histories": perms}))
+
     if ctx.thorough:
-        for name in ("grid_steps", "ttm", "grid_use"):
+        for name in ("grid_steps", "ttm", "grid_use", "cross_dt", "resimulate"):
             ctx.run_parallel(name, [b for n, b in blocks if n == name])
     else:
         for name, b in blocks:
